@@ -1159,34 +1159,73 @@ theorem asgs_partition (env : SpecEnv) (q : Query) (p : Path) (j k : Nat) (op no
 
 /-! ### the `@fold` case of `evalEdge`, named -/
 
+def fdirOutName : FDir → Option Name
+  | .countOutput n => some n
+  | _ => none
+
+def dirOutName : Dir → Option Name
+  | .output n => some n
+  | _ => none
+
+def fdirFilter : FDir → Option (FOp × QArg)
+  | .countFilter op arg => some (op, arg)
+  | _ => none
+
+def kindOutNames : Kind → List Name
+  | .fold fds => fds.filterMap fdirOutName
+  | _ => []
+
+theorem outNamesFields_prop (nm : Name) (dirs : List Dir) (rest : List QField) :
+    outNamesFields (.prop nm dirs :: rest) = dirs.filterMap dirOutName ++ outNamesFields rest := by
+  simp only [outNamesFields]
+  congr 2
+
+theorem outNamesFields_edge (nm : Name) (ps : Params) (k : Kind) (c : QNode) (rest : List QField) :
+    outNamesFields (.edge nm ps k c :: rest) = kindOutNames k ++ outNames c ++ outNamesFields rest := by
+  simp only [outNamesFields]
+  congr 2
+
+/-- One step of the fold over a fold's directives inside a missing scope. -/
+def missStep (acc : Asg) (d : FDir) : Asg :=
+  match d with
+  | .countOutput n => { acc with outs := acc.outs ++ [(n, Value.null)] }
+  | .countTag n => { acc with tags := acc.tags ++ [(n, Tagged.nonexistent)] }
+  | .countFilter _ _ => acc
+
+/-- One step of the fold that binds the count tags. -/
+def tagStep (count : Value) (acc : Asg) (d : FDir) : Asg :=
+  match d with
+  | .countTag n => { acc with tags := acc.tags ++ [(n, Tagged.some count)] }
+  | _ => acc
+
+def countOutOf (count : Value) : FDir → Option (Name × Value)
+  | .countOutput n => some (n, count)
+  | _ => none
+
+/-- The value an element contributes to the folded list of output `n`. -/
+def lookupOut (e : Asg) (n : Name) : Value :=
+  match e.outs.find? (·.1 == n) with
+  | some (_, x) => x
+  | none => Value.null
+
 /-- The single assignment a fold contributes inside a missing scope. -/
 def foldMissing (a : Asg) (fds : List FDir) (names : List Name) : Asg :=
-  let a1 : Asg := { a with outs := a.outs ++ names.map fun n => (n, Value.null) }
-  fds.foldl (fun (acc : Asg) d =>
-    match d with
-    | .countOutput n => { acc with outs := acc.outs ++ [(n, Value.null)] }
-    | .countTag n => { acc with tags := acc.tags ++ [(n, Tagged.nonexistent)] }
-    | .countFilter _ _ => acc) a1
+  fds.foldl missStep { a with outs := a.outs ++ names.map fun n => (n, Value.null) }
+
+def countOf (elems : List Asg) : Value := Value.uint64 (UInt64.ofNat elems.length)
+
+/-- The assignment a fold that passes its count filters contributes. -/
+def foldOk (a : Asg) (fds : List FDir) (names : List Name) (elems : List Asg) : Asg :=
+  let aTags := fds.foldl (tagStep (countOf elems)) a
+  { aTags with outs := aTags.outs ++ fds.filterMap (countOutOf (countOf elems)) ++
+      names.map fun n => (n, Value.list (elems.map fun e => lookupOut e n)) }
 
 /-- What a fold does with its elements: count tags, count filters, list outputs. -/
 def foldFinish (env : SpecEnv) (a : Asg) (v : Option VertexId) (fds : List FDir) (names : List Name)
     (elems : List Asg) : R (List Asg) :=
-  let count := Value.uint64 (UInt64.ofNat elems.length)
-  let fs := fds.filterMap fun d => match d with | .countFilter op arg => some (op, arg) | _ => none
-  let aTags := fds.foldl (fun (acc : Asg) d =>
-    match d with
-    | .countTag n => { acc with tags := acc.tags ++ [(n, Tagged.some count)] }
-    | _ => acc) a
-  match filtersHold env aTags v count fs with
-  | .ok true =>
-    let lists := names.map fun n =>
-      (n, Value.list (elems.map fun (e : Asg) =>
-        match e.outs.find? (·.1 == n) with
-        | some (_, x) => x
-        | none => Value.null))
-    let countOuts := fds.filterMap fun d =>
-      match d with | .countOutput n => some (n, count) | _ => none
-    .ok [{ aTags with outs := aTags.outs ++ countOuts ++ lists }]
+  match filtersHold env (fds.foldl (tagStep (countOf elems)) a) v (countOf elems)
+      (fds.filterMap fdirFilter) with
+  | .ok true => .ok [foldOk a fds names elems]
   | .ok false => .ok []
   | .panic s => .panic s
   | .fuel => .fuel
@@ -1203,17 +1242,10 @@ theorem evalEdge_fold (env : SpecEnv) (fuel : Nat) (owners : List Name) (name : 
         | .panic s => .panic s
         | .fuel => .fuel := by
   cases v with
-  | none =>
-    simp only [evalEdge, foldMissing]
-    congr 3
+  | none => simp only [evalEdge]; rfl
   | some x =>
     simp only [evalEdge, edgeNbrs]
-    cases flatMapR _ _ with
-    | ok elems =>
-      simp only [foldFinish]
-      cases filtersHold _ _ _ _ _ <;> rfl
-    | panic s => rfl
-    | fuel => rfl
+    cases flatMapR _ _ <;> rfl
 
 /-! ### recursion depth -/
 
@@ -1870,5 +1902,374 @@ theorem asgs_param_edge (env : SpecEnv) (q : Query) (p : Path) (j : Nat) (nm nm'
   cases i with
   | false => simpa [pick, onQuery_modNode_id] using h
   | true => exact h'
+
+
+/-! ## §5 renaming outputs and tags -/
+
+section Rename
+variable (σo σt : Name → Name)
+
+/-- An assignment with its keys renamed. -/
+def renA (a : Asg) : Asg :=
+  { tags := a.tags.map fun kv => (σt kv.1, kv.2), outs := a.outs.map fun kv => (σo kv.1, kv.2) }
+
+theorem R_map_ok {α β : Type} (f : α → β) (x : α) : (R.ok x).map f = .ok (f x) := rfl
+
+theorem flatMapR_map {α β γ : Type} (f : α → R (List β)) (g : β → γ) (l : List α) :
+    flatMapR (fun x => (f x).map (List.map g)) l = (flatMapR f l).map (List.map g) := by
+  induction l with
+  | nil => rfl
+  | cons x l ih =>
+    simp only [flatMapR, ih]
+    cases f x <;> cases flatMapR f l <;> simp [R.map]
+
+theorem flatMapR_map_dom {α β γ : Type} (f : β → R (List γ)) (g : α → β) (l : List α) :
+    flatMapR f (l.map g) = flatMapR (fun x => f (g x)) l := by
+  induction l with
+  | nil => rfl
+  | cons x l ih => simp only [List.map_cons, flatMapR, ih]
+
+variable {σo σt}
+
+theorem tag?_renA (ht : Function.Injective σt) (a : Asg) (n : Name) :
+    (renA σo σt a).tag? (σt n) = a.tag? n := by
+  simp only [Asg.tag?, renA, List.find?_map, Option.map_map]
+  have : ((fun x : Name × Tagged => x.1 == σt n) ∘ fun kv : Name × Tagged => (σt kv.1, kv.2)) =
+      fun x => x.1 == n := by
+    funext kv
+    simp only [Function.comp]
+    rw [Bool.eq_iff_iff]
+    simp only [beq_iff_eq]
+    exact ⟨fun h => ht h, fun h => congrArg σt h⟩
+  rw [this]
+  cases List.find? (fun x => x.1 == n) a.tags <;> rfl
+
+theorem filterHolds_renA (ht : Function.Injective σt) (env : SpecEnv) (a : Asg)
+    (v : Option VertexId) (left : Value) (op : FOp) (arg : QArg) :
+    filterHolds env (renA σo σt a) v left op (renArg σt arg) = filterHolds env a v left op arg := by
+  cases v with
+  | none => rfl
+  | some x =>
+    cases op with
+    | un o => rfl
+    | bin o =>
+      cases arg with
+      | var n => rfl
+      | none => rfl
+      | tag n => simp only [renArg, filterHolds, tag?_renA ht]
+
+def renFilter (σt : Name → Name) (f : FOp × QArg) : FOp × QArg := (f.1, renArg σt f.2)
+
+theorem filtersHold_renA (ht : Function.Injective σt) (env : SpecEnv) (a : Asg)
+    (v : Option VertexId) (left : Value) (fs : List (FOp × QArg)) :
+    filtersHold env (renA σo σt a) v left (fs.map (renFilter σt)) = filtersHold env a v left fs := by
+  induction fs with
+  | nil => rfl
+  | cons f fs ih =>
+    obtain ⟨op, arg⟩ := f
+    simp only [List.map_cons, renFilter, filtersHold_cons, filterHolds_renA ht, ih]
+
+theorem dirFilters_map_renDir (dirs : List Dir) :
+    dirFilters (dirs.map (renDir σo σt)) = (dirFilters dirs).map (renFilter σt) := by
+  induction dirs with
+  | nil => rfl
+  | cons d dirs ih =>
+    simp only [dirFilters] at ih ⊢
+    cases d <;> simp [renDir, renFilter, ih]
+
+theorem propFiltersHold_ren (ht : Function.Injective σt) (env : SpecEnv) (a : Asg)
+    (v : Option VertexId) (fields : List QField) :
+    propFiltersHold env (renA σo σt a) v (renFields σo σt fields) = propFiltersHold env a v fields := by
+  induction fields with
+  | nil => simp [renFields, propFiltersHold]
+  | cons fld rest ih =>
+    cases fld with
+    | prop nm dirs =>
+      simp only [renFields, propFiltersHold_cons, fieldFilters, dirFilters_map_renDir,
+        filtersHold_renA ht, ih]
+    | edge nm ps k c => simp only [renFields, propFiltersHold_cons, fieldFilters, ih]
+
+theorem bindDir_renA (v : Option VertexId) (value : Value) (acc : Asg) (d : Dir) :
+    bindDir v value (renA σo σt acc) (renDir σo σt d) = renA σo σt (bindDir v value acc d) := by
+  cases d <;> simp [bindDir, renDir, renA]
+
+theorem foldl_bindDir_renA (v : Option VertexId) (value : Value) (dirs : List Dir) (a : Asg) :
+    (dirs.map (renDir σo σt)).foldl (bindDir v value) (renA σo σt a) =
+      renA σo σt (dirs.foldl (bindDir v value) a) := by
+  induction dirs generalizing a with
+  | nil => rfl
+  | cons d dirs ih => simp only [List.map_cons, List.foldl_cons, bindDir_renA, ih]
+
+theorem bindProps_ren (env : SpecEnv) (v : Option VertexId) (fields : List QField) (a : Asg) :
+    bindProps env v (renFields σo σt fields) (renA σo σt a) = renA σo σt (bindProps env v fields a) := by
+  induction fields generalizing a with
+  | nil => simp [renFields, bindProps]
+  | cons fld rest ih =>
+    cases fld with
+    | prop nm dirs => simp only [renFields, bindProps_prop, foldl_bindDir_renA, ih]
+    | edge nm ps k c => simp only [renFields, bindProps, ih]
+
+theorem filterMap_map_comm {α β : Type} (f : α → Option β) (g : α → α) (h : β → β)
+    (hc : ∀ a, f (g a) = (f a).map h) (l : List α) :
+    (l.map g).filterMap f = (l.filterMap f).map h := by
+  induction l with
+  | nil => rfl
+  | cons a l ih =>
+    simp only [List.map_cons, List.filterMap_cons, hc a]
+    cases f a <;> simp [ih]
+
+theorem kindOutNames_ren (k : Kind) : kindOutNames (renKind σo σt k) = (kindOutNames k).map σo := by
+  cases k with
+  | fold fds =>
+    simp only [renKind, kindOutNames]
+    exact filterMap_map_comm _ _ _ (fun d => by cases d <;> rfl) fds
+  | plain => rfl
+  | optional => rfl
+  | recurse d => rfl
+
+mutual
+theorem outNames_renNode : ∀ n : QNode, outNames (renNode σo σt n) = (outNames n).map σo
+  | .mk ct fields => by
+    simp only [renNode, outNames]
+    exact outNamesFields_renFields fields
+theorem outNamesFields_renFields :
+    ∀ fs : List QField, outNamesFields (renFields σo σt fs) = (outNamesFields fs).map σo
+  | [] => by simp [renFields, outNamesFields]
+  | .prop nm dirs :: rest => by
+    simp only [renFields, outNamesFields_prop, List.map_append, outNamesFields_renFields rest]
+    congr 1
+    exact filterMap_map_comm _ _ _ (fun d => by cases d <;> rfl) dirs
+  | .edge nm ps k c :: rest => by
+    simp only [renFields, outNamesFields_edge, List.map_append, outNamesFields_renFields rest,
+      outNames_renNode c, kindOutNames_ren]
+end
+
+theorem missStep_ren (b : Asg) (d : FDir) :
+    missStep (renA σo σt b) (renFDir σo σt d) = renA σo σt (missStep b d) := by
+  cases d <;> simp [missStep, renFDir, renA]
+
+theorem tagStep_ren (count : Value) (b : Asg) (d : FDir) :
+    tagStep count (renA σo σt b) (renFDir σo σt d) = renA σo σt (tagStep count b d) := by
+  cases d <;> simp [tagStep, renFDir, renA]
+
+theorem foldl_step_ren (step : Asg → FDir → Asg)
+    (h : ∀ b d, step (renA σo σt b) (renFDir σo σt d) = renA σo σt (step b d))
+    (fds : List FDir) (b : Asg) :
+    (fds.map (renFDir σo σt)).foldl step (renA σo σt b) = renA σo σt (fds.foldl step b) := by
+  induction fds generalizing b with
+  | nil => rfl
+  | cons d fds ih => simp only [List.map_cons, List.foldl_cons, h, ih]
+
+theorem foldMissing_ren (a : Asg) (fds : List FDir) (names : List Name) :
+    foldMissing (renA σo σt a) (fds.map (renFDir σo σt)) (names.map σo) =
+      renA σo σt (foldMissing a fds names) := by
+  simp only [foldMissing]
+  rw [← foldl_step_ren missStep missStep_ren]
+  congr 1
+  simp [renA]
+
+theorem lookupOut_renA (ho : Function.Injective σo) (e : Asg) (n : Name) :
+    lookupOut (renA σo σt e) (σo n) = lookupOut e n := by
+  simp only [lookupOut, renA, List.find?_map]
+  have : ((fun x : Name × Value => x.1 == σo n) ∘ fun kv : Name × Value => (σo kv.1, kv.2)) =
+      fun x => x.1 == n := by
+    funext kv
+    simp only [Function.comp]
+    rw [Bool.eq_iff_iff]
+    simp only [beq_iff_eq]
+    exact ⟨fun h => ho h, fun h => congrArg σo h⟩
+  rw [this]
+  cases List.find? (fun x => x.1 == n) e.outs <;> rfl
+
+theorem foldOk_ren (ho : Function.Injective σo) (a : Asg) (fds : List FDir) (names : List Name)
+    (elems : List Asg) :
+    foldOk (renA σo σt a) (fds.map (renFDir σo σt)) (names.map σo) (elems.map (renA σo σt)) =
+      renA σo σt (foldOk a fds names elems) := by
+  have hc : countOf (elems.map (renA σo σt)) = countOf elems := by simp [countOf]
+  have hCo : (fds.map (renFDir σo σt)).filterMap (countOutOf (countOf elems)) =
+      (fds.filterMap (countOutOf (countOf elems))).map (fun kv => (σo kv.1, kv.2)) :=
+    filterMap_map_comm _ _ _ (fun d => by cases d <;> rfl) fds
+  simp only [foldOk, hc, foldl_step_ren (tagStep (countOf elems)) (tagStep_ren _), hCo]
+  simp only [renA, List.map_append, List.map_map, Asg.mk.injEq, true_and]
+  congr 1
+  apply List.map_congr_left
+  intro n _
+  simp only [Function.comp]
+  congr 2
+  apply List.map_congr_left
+  intro e _
+  exact lookupOut_renA (σt := σt) ho e n
+
+theorem foldFinish_ren (ho : Function.Injective σo) (ht : Function.Injective σt) (env : SpecEnv)
+    (a : Asg) (v : Option VertexId) (fds : List FDir) (names : List Name) (elems : List Asg) :
+    foldFinish env (renA σo σt a) v (fds.map (renFDir σo σt)) (names.map σo)
+        (elems.map (renA σo σt)) =
+      (foldFinish env a v fds names elems).map (List.map (renA σo σt)) := by
+  have hc : countOf (elems.map (renA σo σt)) = countOf elems := by simp [countOf]
+  have hFs : (fds.map (renFDir σo σt)).filterMap fdirFilter =
+      (fds.filterMap fdirFilter).map (renFilter σt) :=
+    filterMap_map_comm _ _ _ (fun d => by cases d <;> rfl) fds
+  simp only [foldFinish, hc, foldl_step_ren (tagStep (countOf elems)) (tagStep_ren _), hFs,
+    filtersHold_renA ht]
+  cases filtersHold env _ v _ _ with
+  | ok b =>
+    cases b with
+    | false => rfl
+    | true => simp only [R.map, List.map_cons, List.map_nil, foldOk_ren ho]
+  | panic s => rfl
+  | fuel => rfl
+
+/-- Renaming commutes with the denotation: evaluate the renamed node under the renamed assignment
+and get the renamed results (errors included). -/
+theorem evalNode_ren (ho : Function.Injective σo) (ht : Function.Injective σt) (env : SpecEnv)
+    (fuel : Nat) : ∀ (n : QNode) (v : Option VertexId) (a : Asg),
+    evalNode env fuel (renNode σo σt n) v (renA σo σt a) =
+      (evalNode env fuel n v a).map (List.map (renA σo σt)) := by
+  induction fuel with
+  | zero => intro n v a; simp [evalNode_zero, R.map]
+  | succ fuel ih =>
+    -- edges at this fuel
+    have hedge : ∀ owners nm ps k c v a,
+        evalEdge env fuel owners nm ps (renKind σo σt k) (renNode σo σt c) v (renA σo σt a) =
+          (evalEdge env fuel owners nm ps k c v a).map (List.map (renA σo σt)) := by
+      intro owners nm ps k c v a
+      cases k with
+      | plain =>
+        simp only [renKind, evalEdge_plain]
+        cases v with
+        | none => exact ih c none a
+        | some x => simp only [ih, flatMapR_map]
+      | optional =>
+        simp only [renKind, evalEdge_optional]
+        split
+        · exact ih c none a
+        · simp only [ih, flatMapR_map]
+      | recurse d =>
+        simp only [renKind, evalEdge_recurse]
+        cases v with
+        | none => exact ih c none a
+        | some x => simp only [ih, flatMapR_map]
+      | fold fds =>
+        simp only [renKind, evalEdge_fold, outNames_renNode]
+        cases v with
+        | none => simp only [foldMissing_ren, R.map, List.map_cons, List.map_nil]
+        | some x =>
+          have e0 : ({ tags := (renA σo σt a).tags, outs := [] } : Asg) =
+              renA σo σt { tags := a.tags, outs := [] } := by simp [renA]
+          simp only [e0, ih, flatMapR_map]
+          cases flatMapR (fun n => evalNode env fuel c (some n) { tags := a.tags, outs := [] })
+              (edgeNbrs env owners nm ps (some x)) with
+          | ok elems => simp only [R.map]; exact foldFinish_ren ho ht env a (some x) fds _ elems
+          | panic s => rfl
+          | fuel => rfl
+    have hfields : ∀ owners (fs : List QField) v (as : List Asg),
+        evalFields env fuel owners (renFields σo σt fs) v (as.map (renA σo σt)) =
+          (evalFields env fuel owners fs v as).map (List.map (renA σo σt)) := by
+      intro owners fs v
+      induction fs with
+      | nil => intro as; simp [renFields, evalFields_nil, R.map]
+      | cons fld rest ihf =>
+        intro as
+        cases fld with
+        | prop nm dirs => simp only [renFields, evalFields_prop]; exact ihf as
+        | edge nm ps k c =>
+          simp only [renFields, evalFields_edge, flatMapR_map_dom, hedge, flatMapR_map]
+          cases flatMapR (fun a => evalEdge env fuel owners nm ps k c v a) as with
+          | ok as' => simp only [R.map]; exact ihf as'
+          | panic s => rfl
+          | fuel => rfl
+    intro n v a
+    obtain ⟨ct, fields⟩ := n
+    simp only [renNode, evalNode_succ, bindProps_ren, propFiltersHold_ren ht, afterFilters_eq_gate]
+    have := hfields (ownersOf env v) fields v [bindProps env v fields a]
+    simp only [List.map_cons, List.map_nil] at this
+    rw [this]
+    split
+    · cases propFiltersHold env (bindProps env v fields a) v fields with
+      | ok b => cases b <;> simp [gate, R.map]
+      | panic s => simp [gate, R.map]
+      | fuel => simp [gate, R.map]
+    · rfl
+
+theorem asgs_ren (ho : Function.Injective σo) (ht : Function.Injective σt) (env : SpecEnv)
+    (q : Query) :
+    asgs env (onQuery (renNode σo σt) q) = (asgs env q).map (List.map (renA σo σt)) := by
+  simp only [asgs, onQuery]
+  have e0 : ({ tags := [], outs := [] } : Asg) = renA σo σt { tags := [], outs := [] } := rfl
+  rw [← flatMapR_map]
+  apply flatMapR_congr
+  intro v _
+  rw [e0]
+  exact evalNode_ren ho ht env sizeBound q.root (some v) _
+
+end Rename
+
+
+/-! ### rows after renaming -/
+
+/-- Pointwise relation between two lists of the same length. -/
+inductive Forall₂ {α β : Type} (P : α → β → Prop) : List α → List β → Prop
+  | nil : Forall₂ P [] []
+  | cons {a : α} {b : β} {l1 : List α} {l2 : List β} : P a b → Forall₂ P l1 l2 → Forall₂ P (a :: l1) (b :: l2)
+
+theorem Forall₂.of_map {α β γ : Type} (P : β → γ → Prop) (f : α → β) (g : α → γ) (l : List α)
+    (h : ∀ a ∈ l, P (f a) (g a)) : Forall₂ P (l.map f) (l.map g) := by
+  induction l with
+  | nil => exact .nil
+  | cons a l ih => exact .cons (h a (by simp)) (ih fun b hb => h b (by simp [hb]))
+
+theorem Forall₂.length_eq {α β : Type} {P : α → β → Prop} {l1 : List α} {l2 : List β}
+    (h : Forall₂ P l1 l2) : l1.length = l2.length := by
+  induction h with
+  | nil => rfl
+  | cons _ _ ih => simp [ih]
+
+theorem insertSorted_perm (kv : Name × Value) (r : Row) : (insertSorted kv r).Perm (kv :: r) := by
+  induction r with
+  | nil => exact List.Perm.refl _
+  | cons x xs ih =>
+    simp only [insertSorted]
+    split
+    · exact List.Perm.refl _
+    · exact (List.Perm.cons x ih).trans (List.Perm.swap kv x xs)
+
+theorem sortRow_perm (r : Row) : (sortRow r).Perm r := by
+  induction r with
+  | nil => exact List.Perm.refl _
+  | cons kv r ih => exact (insertSorted_perm kv _).trans (List.Perm.cons kv ih)
+
+theorem rows_renameOutputs {σ : Name → Name} (hσ : Function.Injective σ) (env : SpecEnv) (q : Query) :
+    rows env (renameOutputs σ q) =
+      (asgs env q).map (List.map fun a => sortRow (renameRowKeys σ a.outs)) := by
+  rw [rows_eq, renameOutputs, asgs_ren (σo := σ) (σt := id) hσ (fun _ _ h => h)]
+  cases asgs env q <;> simp [R.map, rowOf, renA, renameRowKeys]
+
+theorem rows_renameTags {σ : Name → Name} (hσ : Function.Injective σ) (env : SpecEnv) (q : Query) :
+    rows env (renameTags σ q) = rows env q := by
+  rw [rows_eq, rows_eq, renameTags, asgs_ren (σo := id) (σt := σ) (fun _ _ h => h) hσ]
+  cases asgs env q <;> simp [R.map, rowOf, renA]
+
+/-- Row by row, the renamed query's row is the original row with its keys renamed (as a multiset of
+`(name, value)` pairs: the row is re-sorted by the new names). -/
+theorem rows_renameOutputs_perm {σ : Name → Name} (hσ : Function.Injective σ) (env : SpecEnv)
+    (q : Query) (rs : List Row) (h : rows env q = .ok rs) :
+    ∃ rs', rows env (renameOutputs σ q) = .ok rs' ∧
+      Forall₂ (fun r' r => r'.Perm (renameRowKeys σ r)) rs' rs := by
+  obtain ⟨as, has, rfl⟩ := rows_ok.mp h
+  refine ⟨_, by rw [rows_renameOutputs hσ, has]; rfl, ?_⟩
+  apply Forall₂.of_map
+  intro a _
+  refine (sortRow_perm _).trans ?_
+  simp only [renameRowKeys, rowOf]
+  exact ((sortRow_perm a.outs).map _).symm
+
+/-! ### from assignments to rows -/
+
+theorem rows_sublist_of_asgs {env : SpecEnv} {q q' : Query}
+    (h : ∀ as as', asgs env q = .ok as → asgs env q' = .ok as' → as'.Sublist as)
+    {rs rs' : List Row} (hr : rows env q = .ok rs) (hr' : rows env q' = .ok rs') : rs'.Sublist rs := by
+  obtain ⟨as, has, rfl⟩ := rows_ok.mp hr
+  obtain ⟨as', has', rfl⟩ := rows_ok.mp hr'
+  exact (h as as' has has').map _
 
 end TF.SpecMeta
